@@ -439,4 +439,27 @@ theorem so3Jr_small (eps : ℝ) (x : Vec3 ℝ) (h : ¬ eps < x.norm) : so3Jr eps
   unfold so3Jr; simp only [lt_real, h, decide_false, if_false, Bool.false_eq_true]
 
 
+
+/-! ## list-level helpers for `+` and `Jinvp` -/
+theorem block31_mulVec (A : Mat3 ℝ) (u : Vec3 ℝ) (c : ℝ) :
+    (DMat.block A.toRows (DMat.zero 3 1) (DMat.zero 1 3) [[k 1]]).mulVec (u.toList ++ [c])
+      = (A.mulVec u).toList ++ [c] := by
+  dmat_unfold
+  lie_unfold
+  simp only [List.cons.injEq, and_true]
+  refine ⟨?_, ?_, ?_, ?_⟩ <;> ring
+
+theorem scaleList_append (α : ℝ) (a b : List ℝ) : scaleList α (a ++ b) = scaleList α a ++ scaleList α b := by
+  simp [scaleList]
+theorem scaleList_vec (α : ℝ) (a : Vec3 ℝ) : scaleList α a.toList = (a.smul α).toList := by
+  simp [scaleList, Vec3.toList, Vec3.smul]
+/-- adding to an algebra element is plain vector addition of the first `m` components -/
+theorem alg_add_eq (x y extra : List ℝ) (h : y.length = x.length) :
+    algAdd x (y ++ extra) = some (List.zipWith (· + ·) x y) := by
+  unfold algAdd
+  have hl : ¬ (y ++ extra).length < x.length := by simp [h]
+  rw [if_neg hl, ← h, List.take_left']
+  · rfl
+  · rfl
+
 end PP
